@@ -616,4 +616,130 @@ Section Kept.
       destruct (rev ((x :: F) ++ map eb C)) eqn:E; [|reflexivity].
       exfalso. apply (f_equal (@rev block)) in E. rewrite rev_involutive in E. discriminate.
   Qed.
+  (* ---------------------------------------------------------------- one ProcessBlock call in both runs *)
+
+  Definition StepK (s1 s2 : fstate) (b : block) : Prop :=
+    exists s1' s2' evs Fin' S',
+      fk_step cfg s1 b = (s1', evs, ROk) /\ fk_step cfg' s2 b = (s2', evs, ROk) /\
+      Inv s1' Fin' S' /\ Inv s2' Fin' S' /\ Ext s1' Fin' /\ Ext s2' Fin' /\ KRel s1' s2'.
+
+  Lemma dropped_kept s1 s2 b : KRel s1 s2 -> dropped s2 b = dropped s1 b.
+  Proof. intros HK. unfold dropped. rewrite (kr_lib _ _ HK), (kr_last _ _ HK). reflexivity. Qed.
+
+  Lemma incl_first_kept s1 s2 b : KRel s1 s2 -> incl_first cfg' s2 b = incl_first cfg s1 b.
+  Proof. intros HK. unfold incl_first. rewrite (kr_lib _ _ HK), (kr_last _ _ HK). reflexivity. Qed.
+
+  Lemma triggers_kept s1 s2 b : KRel s1 s2 -> triggers cfg' s2 b = triggers cfg s1 b.
+  Proof. intros HK. unfold triggers. rewrite (kr_last _ _ HK). reflexivity. Qed.
+
+  (* the two triggering steps *)
+  Lemma trigger_kept s1 s2 Fin S b pP u1 r1 j1 u2 r2 j2 :
+    Inv s1 Fin S -> Inv s2 Fin S -> Ext s1 Fin -> Ext s2 Fin -> KRel s1 s2 -> In b U ->
+    find (bid b) (store (db s1)) = None -> find (bid b) (store (db s2)) = None ->
+    dropped s1 b = false -> incl_first cfg s1 b = false -> triggers cfg s1 b = true ->
+    chain (store (db s1) ++ [mkEntry b false]) (bid b) (ri (libref (db s1))) (pP ++ [mkEntry b false]) ->
+    chain (store (db s2) ++ [mkEntry b false]) (bid b) (ri (libref (db s2))) (pP ++ [mkEntry b false]) ->
+    sw_of cfg s1 b = ScssOk u1 r1 j1 -> sw_of cfg' s2 b = ScssOk u2 r2 j2 ->
+    exists s1' s2' evs Fin' S',
+      process_tail cfg (with_db s1 (new_db (db s1) b)) b u1 r1 j1 (map seg_of (pP ++ [mkEntry b false])) None = (s1', evs, ROk) /\
+      process_tail cfg' (with_db s2 (new_db (db s2) b)) b u2 r2 j2 (map seg_of (pP ++ [mkEntry b false])) None = (s2', evs, ROk) /\
+      Inv s1' Fin' S' /\ Inv s2' Fin' S' /\ Ext s1' Fin' /\ Ext s2' Fin' /\ KRel s1' s2'.
+  Proof.
+    intros HI1 HI2 HX1 HX2 HK Hb Hf1 Hf2 Hd Hni Htr Hc1 Hc2 Hsw1 Hsw2.
+    set (en := mkEntry b false) in *.
+    assert (Hni2 : incl_first cfg' s2 b = false) by (rewrite (incl_first_kept s1 s2 b HK); exact Hni).
+    assert (Htr2 : triggers cfg' s2 b = true) by (rewrite (triggers_kept s1 s2 b HK); exact Htr).
+    destruct (trigger_form U r0 cfg Hnofail Hnew Hundo U_id U_uniq U_up L_id L_num L_up L_decl
+                s1 Fin S b pP u1 r1 j1 HI1 HX1 Hb Hf1 Hni Htr Hc1 Hsw1)
+      as (pH1 & C1 & Rs1 & Ru1 & Uh1 & t1 & HpH1 & HP1 & HH1 & Hdis1 & HRs1 & HRu1 & HS1 & Hrun1 & Happ1 & HIt1 & Hst1 & Hex1 & Hlr1 & Hls1 & Hlls1).
+    destruct (trigger_form U r0 cfg' Hnofail Hnew Hundo U_id U_uniq U_up L_id L_num L_up L_decl
+                s2 Fin S b pP u2 r2 j2 (proj1 (inv_kept s2 Fin S) HI2) HX2 Hb Hf2 Hni2 Htr2 Hc2 Hsw2)
+      as (pH2 & C2 & Rs2 & Ru2 & Uh2 & t2 & HpH2 & HP2 & HH2 & Hdis2 & HRs2 & HRu2 & HS2 & Hrun2 & Happ2 & HIt2 & Hst2 & Hex2 & Hlr2 & Hls2 & Hlls2).
+    apply (proj2 (inv_kept t2 Fin _)) in HIt2.
+    fold en in Hrun1, Hrun2, Happ1, Happ2, HIt1, HIt2, Hst1, Hst2.
+    pose proof (kr_lib _ _ HK) as EL. pose proof (kr_last _ _ HK) as ELS.
+    (* the chain of the old head is the same *)
+    assert (EpH : pH2 = pH1).
+    { rewrite <- ELS in HpH2. destruct (last_sent s1) as [hd|].
+      - pose proof (krel_chain s1 s2 _ _ HK (i_db _ _ _ _ _ _ HI1) HpH1) as Hc. exact (chain_det _ _ _ _ _ HpH2 Hc).
+      - congruence. }
+    rewrite EpH in HH2, Hdis2, HS2. clear EpH HpH2.
+    destruct (meet_unique C1 C2 (Rs1 ++ Ru1) (Rs2 ++ Ru2) Uh1 Uh2 pH1) as (EC & ER & EU); try assumption; [congruence|].
+    subst C2 Uh2.
+    destruct (sent_split_unique Rs1 Ru1 Rs2 Ru2 ER HRs1 HRu1 HRs2 HRu2) as [-> ->].
+    rewrite <- EL, <- (junction_kept s1 s2 Fin S _ C1 HK HI1 HI2) in Hrun2, Happ2.
+    set (EV := undo_evs (libref (db s1)) b (junction_of r0 (lib_stored r0 s1) (rev (map eb Uh1)) (rev (Fin ++ map eb C1))) (rev (map eb Uh1)) ++
+               new_evs (libref (db s1)) b (map eb Rs2) (map eb (Ru2 ++ [en]))) in *.
+    set (S3 := rev (Fin ++ map eb (pP ++ [en]))) in *.
+    rewrite Hrun1, Hrun2.
+    (* the relation after the first half *)
+    pose proof (krel_add s1 s2 b HK Hb Hd Hf1) as HKa.
+    assert (HKt : KRel t1 t2).
+    { apply (krel_mark _ _ t1 t2 (unsent (map seg_of (pP ++ [en]))) HKa); try assumption; try congruence;
+        try (intros _; exact I); intros H; congruence. }
+    destruct (chain_snoc_inv _ _ _ _ _ Hc1) as (Hne & _ & _).
+    assert (Hne1 : bid b <> ri (libref (db t1))) by (rewrite Hlr1; exact Hne).
+    assert (Hne2 : bid b <> ri (libref (db t2))) by (rewrite Hlr2, <- EL; exact Hne).
+    destruct (lib_half_ev U r0 cfg Hnofail U_id U_uniq U_up L_id L_num L_up L_decl t1 Fin S3 b EV HIt1 Hls1 Hb Hne1)
+      as (s1' & Fn1 & st1 & Hr1 & HI1' & Hls1' & Hcase1 & _ & _ & _ & _ & Hmv1).
+    destruct (lib_half_ev U r0 cfg' Hnofail U_id U_uniq U_up L_id L_num L_up L_decl t2 Fin S3 b EV (proj1 (inv_kept t2 Fin S3) HIt2) Hls2 Hb Hne2)
+      as (s2' & Fn2 & st2 & Hr2 & HI2' & Hls2' & Hcase2 & _ & _ & _ & _ & Hmv2).
+    apply (proj2 (inv_kept s2' _ _)) in HI2'.
+    change (c_filter cfg') with (c_filter cfg) in *.
+    rewrite Hr1, Hr2.
+    pose proof (kr_lib _ _ HKt) as ELt.
+    destruct Hcase1 as [(-> & -> & -> & Hle1)|(HFne1 & Hgt1 & Hrn1 & Hll1 & Hx1)];
+      destruct Hcase2 as [(-> & -> & -> & Hle2)|(HFne2 & Hgt2 & Hrn2 & Hll2 & Hx2)]; try (rewrite ELt in *; lia).
+    - (* the LIB stays in both runs *)
+      exists t1, t2, (EV ++ late_evs b (libref (db t1)) (if f_irr (c_filter cfg) then [] else []) []), Fin, S3.
+      split; [reflexivity|]. split; [rewrite ELt; reflexivity|].
+      rewrite app_nil_r in HI1', HI2'. split; [exact HI1'|]. split; [exact HI2'|].
+      assert (HXt : forall s t, Ext s Fin -> last_lib_seen t = last_lib_seen s -> libref (db t) = libref (db s) ->
+                       store (db t) = mark_all (store (db s) ++ [en]) (unsent (map seg_of (pP ++ [en]))) -> Ext t Fin).
+      { intros s t HX Q1 Q2 Q3. constructor.
+        - unfold cursor_lib. rewrite Q1, Q2. exact (x_cur _ _ HX).
+        - intros HF. rewrite Q2, Q3, mark_all_keys, keys_snoc. apply in_or_app. left. exact (x_lib _ _ HX HF). }
+      split; [exact (HXt s1 t1 HX1 Hlls1 Hlr1 Hst1)|]. split; [exact (HXt s2 t2 HX2 Hlls2 Hlr2 Hst2) | exact HKt].
+    - (* the LIB moves in both runs, to the same block *)
+      destruct (Hmv1 HFne1) as (A1 & a1 & B1 & Hch1 & Hna1 & -> & -> & Hdb1 & Hl1).
+      destruct (Hmv2 HFne2) as (A2 & a2 & B2 & Hch2 & Hna2 & -> & -> & Hdb2 & Hl2).
+      pose proof (krel_chain t1 t2 _ _ HKt (i_db _ _ _ _ _ _ HIt1) Hch1) as Hch1'.
+      pose proof (chain_det _ _ _ _ _ Hch1' Hch2) as Eq.
+      pose proof (di_wf U r0 U_id U_up _ (i_db _ _ _ _ _ _ HIt1)) as Hwf1.
+      destruct (chain_split_order _ _ _ _ _ _ Hwf1 Hch1) as [HabB HbelA].
+      assert (Ea : a2 = a1).
+      { assert (Hin : In a2 (A1 ++ a1 :: B1)) by (rewrite Eq; apply in_or_app; right; left; reflexivity).
+        apply in_app_or in Hin as [Hin|[Hin|Hin]]; [specialize (HbelA a2 Hin); lia | symmetry; exact Hin | specialize (HabB a2 Hin); lia]. }
+      subst a2.
+      assert (Hndp : NoDup (A1 ++ a1 :: B1)).
+      { apply (NoDup_map_inv key). exact (chain_nodup _ _ _ _ Hwf1 Hch1). }
+      destruct (nodup_split_unique A1 A2 B1 B2 a1 Hndp Eq) as [-> ->].
+      assert (Hst : stalled_in_segment (db t2) (map seg_of (A2 ++ [a1])) = stalled_in_segment (db t1) (map seg_of (A2 ++ [a1]))).
+      { symmetry.
+        assert (Hirr : exists b0 rest, map seg_of (A2 ++ [a1]) = b0 :: rest /\ rn (libref (db t1)) <= snum b0).
+        { pose proof (di_above U r0 U_id U_up _ (i_db _ _ _ _ _ _ HIt1) _ _ Hch1) as Hab.
+          destruct A2 as [|x A2']; cbn [app map].
+          - eexists _, _. split; [reflexivity|]. cbn [seg_of snum]. specialize (Hab a1 (or_introl eq_refl)). lia.
+          - eexists _, _. split; [reflexivity|]. cbn [seg_of snum]. specialize (Hab x (or_introl eq_refl)). lia. }
+        destruct Hirr as (b0 & rest & Eirr & Hlo). exact (stalled_kept t1 t2 _ b0 rest HKt Eirr Hlo). }
+      rewrite Hst in Hr2 |- *.
+      assert (Hl1' : libref (db s1') = mkR (key a1) (bnum (eb a1))) by (rewrite Hdb1; reflexivity).
+      assert (Hl2' : libref (db s2') = mkR (key a1) (bnum (eb a1))) by (rewrite Hdb2; reflexivity).
+      eexists s1', s2', _, (Fin ++ map eb (A2 ++ [a1])), S3.
+      split; [reflexivity|]. split; [rewrite Hl2', <- Hl1'; reflexivity|].
+      split; [exact HI1'|]. split; [exact HI2'|].
+      assert (HXm : forall s', DbInv (db s') -> last_lib_seen s' = libref (db s') -> extra (db s') = None ->
+                      Ext s' (Fin ++ map eb (A2 ++ [a1]))).
+      { intros s' Hd' Q1 Q2. constructor.
+        - rewrite <- Q1. apply cursor_not_empty. rewrite Q1. exact (di_lid U r0 _ Hd').
+        - intros _. pose proof (di_num U r0 _ Hd') as Hn. unfold num_of in Hn. rewrite Q2 in Hn.
+          destruct (find (ri (libref (db s'))) (store (db s'))) as [e|] eqn:F; [|discriminate].
+          apply find_is_some_in. eauto. }
+      split; [exact (HXm s1' (i_db _ _ _ _ _ _ HI1') Hll1 Hx1)|]. split; [exact (HXm s2' (i_db _ _ _ _ _ _ HI2') Hll2 Hx2)|].
+      apply (krel_purge t1 t2 s1' s2' (mkR (key a1) (bnum (eb a1))) (c_kept cfg) (c_kept cfg') HKt); try assumption.
+      + cbn [rn]. lia.
+      + congruence.
+      + rewrite Hls1'. discriminate.
+      + congruence.
+  Qed.
 End Kept.
